@@ -261,6 +261,12 @@ int tokens_get(AsmContext *asm_context, char *token, int len)
 //printf("Enter tokens_get()\n");
 #endif
 
+  // An expanded .define / macro continues here with the first token of its
+  // text (a loop instead of recursion: a line can hold any number of
+  // defines that expand to nothing).
+again:
+  token_type = TOKEN_EOF;
+  ptr = 0;
   token[0] = 0;
 
   if (asm_context->tokens.pushback2[0] != 0)
@@ -733,10 +739,7 @@ printf("debug> '%s' is a macro.  param_count=%d\n", token, param_count);
 //  asm_context->tokens.unget_ptr);
 #endif
 
-      token_type = tokens_get(asm_context, token, len);
-#ifdef DEBUG
-//printf("debug> expanding.. '%s'\n", token);
-#endif
+      goto again;
     }
       else
     if (token[0] == '0' && token[1] == 'x')
